@@ -156,12 +156,22 @@ impl Dg {
             ));
         }
         let changed;
+        let mut register = true;
         match self.transferred.get(&query).copied() {
             None => {
                 self.transferred.insert(query, (nt, new_owner));
                 changed = cur != nt;
             }
-            Some(e) if e == (nt, new_owner) => return Ok(("noop", nt, false)),
+            Some(e) if e == (nt, new_owner) => {
+                // same owner as before: a no-op when the owner runs on this thread, otherwise the
+                // key was re-claimed by `cur` and its waiters are handed over as for a first
+                // transfer (without registering the dependent again)
+                if cur == nt {
+                    return Ok(("noop", nt, false));
+                }
+                changed = true;
+                register = false;
+            }
             Some((old_thread, old_owner)) => {
                 let l = self
                     .tdeps
@@ -199,11 +209,13 @@ impl Dg {
                 changed = true;
             }
         }
-        let l = self.tdeps.entry(new_owner).or_default();
-        if l.contains(&new_owner) || l.contains(&query) {
-            return Err("transfer_lock: duplicate transferred dependent (debug_assert)".into());
+        if register {
+            let l = self.tdeps.entry(new_owner).or_default();
+            if l.contains(&new_owner) || l.contains(&query) {
+                return Err("transfer_lock: duplicate transferred dependent (debug_assert)".into());
+            }
+            l.push(query);
         }
-        l.push(query);
         if changed {
             self.unblock_transfer_target(query, nt)?;
             self.update_transferred_edges(query, nt, 0)?;
